@@ -520,6 +520,10 @@ def scenarios(ctx):
         res.append({'layout': 'L3', 'mode': 'noqueue', 'ops': ['P1', 'E', 'Ms1'], 'cmd': 'reset'})
         res.append({'layout': 'S4', 'mode': 'noqueue', 'ops': ['D', 'Md2', 'P1'], 'cmd': 'reset'})
         res.append({'layout': 'L3', 'mode': 'noqueue', 'ops': ['E', 'P0', 'J'], 'cmd': 'reset', 'no_octopus': True})
+        # manual work on the SECOND integration branch (what it sits on comes from the first one, not from the source)
+        res.append({'layout': 'FF3', 'mode': 'noqueue', 'ops': ['P1'], 'cmd': 'reset'})
+        res.append({'layout': 'L3', 'mode': 'queue', 'ops': ['P1'], 'cmd': 'reset'})
+        res.append({'layout': 'FF3', 'mode': 'noqueue', 'ops': ['E', 'J', 'P1'], 'cmd': 'reset'})
         res += git_fault_scenarios(range(0, 12))
         return res
     # thorough: everything of length <= 1, then a seeded stratified sample of lengths 2..4
